@@ -13,12 +13,12 @@ from common import Infra, run_tlc, Scratch, log
 # which P predicates decide which property (PipeProps.Verdicts)
 PREDS = {
     "C05": ["PipePrefix", "PipeComplete", "PipeSettle", "PipeGen", "Prefix", "SeqExact", "FoldRes", "Complete", "TakeBound", "CallsPrefix", "CallsComplete", "Settle1"],
-    "C06": ["PipePrefix", "NoPanic", "Prefix", "FoldRes", "Settle1", "Settle2", "LiftCloses", "GenExact", "GenSettle", "JoinPerInput", "JoinNothingInvented"],
+    "C06": ["PipePrefix", "NoPanic", "Prefix", "FoldRes", "Settle1", "Settle2", "LiftCloses", "GenExact", "GenStops", "GenSettle", "JoinPerInput", "JoinNothingInvented"],
     "C07": ["Prefix", "Complete", "CallsPrefix", "CallsComplete", "Settle1", "LiftCloses", "NoPanic", "GenExact", "GenSettle"],
     "C08": ["NeverBlocksSender", "Prefix", "LosslessAfterCancel", "Complete", "Settle1", "NewSettle", "NoPanic"],
     "C09": ["Prefix", "Complete", "CallsPrefix", "CallsComplete", "NoPanic", "Settle1", "Settle2"],
     "C10": ["FoldRes", "Complete", "CallsComplete", "Settle1", "NoPanic"],
-    "C11": ["GenExact", "EmitPaced", "EmitKeepUp", "Settle2", "GenSettle", "NoPanic"],
+    "C11": ["GenExact", "GenStops", "EmitPaced", "EmitKeepUp", "Settle2", "GenSettle", "NoPanic"],
     "C12": ["JoinPerInput", "JoinNothingInvented", "JoinComplete", "Settle1", "Settle2", "NoPanic"],
     "C13": ["Prefix", "Complete", "ThrottleWindow", "ThrottlePaced", "Settle1", "Settle2", "NoPanic"],
 }
@@ -309,7 +309,7 @@ def check(run, replay=None):
             for s in g:
                 scheds.append(dict(s, epilogue="cancel"))
             scheds += [dict(s, epilogue="closewait") for s in g if rng.random() < 0.25]
-            scheds += rand_scheds(rnd + other_cfgs("C06", th, rng), rng, nrand, ["cancel", "closewait", "drain"])
+            scheds += rand_scheds(rnd + other_cfgs("C06", th, rng), rng, nrand, ["cancel", "closewait", "drain", "cancel-keepup"])
             scheds += rand_scheds(pipeline_cfgs(rng, 200 if th else 40), rng, 3, ["cancel", "cancel", "closewait"])
             scheds += special_scheds(pid, th, rng)
         elif pid == "C07":
@@ -333,7 +333,7 @@ def check(run, replay=None):
             scheds += rand_scheds(other_cfgs(pid, th, rng), rng, nrand * 3, ["cancel", "closewait", "drain"])
             scheds += special_scheds(pid, th, rng)
         else:
-            scheds += rand_scheds(other_cfgs(pid, th, rng), rng, nrand * 3, {"C11": ["cancel", "drain"],
+            scheds += rand_scheds(other_cfgs(pid, th, rng), rng, nrand * 3, {"C11": ["cancel", "drain", "cancel-keepup"],
                                   "C12": ["drain", "closewait", "cancel"], "C13": ["drain", "closewait", "cancel"]}[pid])
             scheds += special_scheds(pid, th, rng)
         for r in res[ntl:]:
@@ -444,7 +444,7 @@ def cmd_str(c):
         return "burst[" + ", ".join(cmd_str(x) for x in c.get("sub", [])) + "]"
     if s in ("send", "close"):
         s += " in%d" % c["i"] + ("=%d" % c["v"] if c.get("v") else "")
-    elif s == "recv":
+    elif s in ("recv", "recvall"):
         s += " " + c["o"]
     elif s == "release":
         s += " x=%d" % c["x"]
